@@ -153,11 +153,31 @@ func NewDecoder(filename string, b []byte) *decoder {
 	return &decoder{
 		src:        b,
 		tokFile:    tokFile,
-		tokLines:   append(tokFile.Lines(), len(b)),
+		tokLines:   append(lineOffsets(b), len(b)),
 		segments:   splitDocuments(tokens),
 		lastOffset: -1,
 		scopeEnd:   len(b),
 	}
+}
+
+// lineOffsets returns the byte offset at which each line of b starts, using
+// the line breaks the YAML lexer counts: "\n", "\r\n" and a lone "\r".
+// Counting "\n" only would leave goccy's line numbers pointing past the
+// end of the table for input that uses a bare CR as a line break.
+func lineOffsets(b []byte) []int {
+	lines := []int{0}
+	for i, c := range b {
+		switch c {
+		case '\n':
+			lines = append(lines, i+1)
+		case '\r':
+			if i+1 < len(b) && b[i+1] == '\n' {
+				continue
+			}
+			lines = append(lines, i+1)
+		}
+	}
+	return lines
 }
 
 // normalizeMergeKeys rewrites explicitly tagged merge keys such as
